@@ -28,6 +28,7 @@ type Frame struct {
 	specBind map[string]*SVal // extra spec bindings (callpre params etc.)
 	allowed  map[string][]*Term
 	wholeOK  map[string]bool
+	paramVals  map[*types.Var]*Term // entry values of receiver and parameters (boxed ones included)
 	labelFrame map[string][]string
 	deferredUnlock bool // set while running deferred calls at function exit
 	lockedKeys map[string]bool // fields protected by a lock this function acquired: no frame claim (other goroutines may write them)
@@ -516,7 +517,7 @@ func (fr *Frame) declare(st *State, id *ast.Ident, v *Term) {
 		if isStructVal(obj.Type()) {
 			e.storeObj(st, ref, obj.Type(), v)
 		} else {
-			e.store(st, &Loc{Kind: LGlobal, Key: "box$" + id.Name + fmt.Sprint(obj.Pos()), T: obj.Type()}, v)
+			e.store(st, e.cellLoc(ref, obj.Type()), v)
 		}
 		return
 	}
